@@ -153,6 +153,8 @@ def run_C02(run):
     # (4) parenthesised path followed by a predicate
     run.gen_and_replay("MC_Expr", consts(BASE_EXPR, Family="C02paren", MaxNodes=4 if q else 5, UseCat=True),
                        name="preds-paren", kind="sel-set")
+    run.gen_and_replay("MC_Expr", consts(BASE_EXPR, Family="C02paren2", MaxNodes=4 if q else 5, UseCat=True),
+                       name="preds-paren-several", kind="sel-set")
 
 
 def run_C03(run):
